@@ -1,6 +1,6 @@
 Require Extraction.
 Require Import ExtrOcamlBasic.
-From Zix Require Import PathDecSpec PathDecModel.
+From Zix Require Import PathDecSpec PathDecModel PathWinSpec.
 Separate Extraction
   PathDecSpec.as_path PathDecSpec.std_root_name PathDecSpec.std_root_directory PathDecSpec.std_root_path
   PathDecSpec.std_relative_path PathDecSpec.std_parent_path PathDecSpec.std_filename PathDecSpec.std_stem
@@ -8,4 +8,7 @@ Separate Extraction
   PathDecModel.zix_path_root_name PathDecModel.zix_path_root_directory PathDecModel.zix_path_root_path
   PathDecModel.zix_path_relative_path PathDecModel.zix_path_parent_path PathDecModel.zix_path_filename
   PathDecModel.zix_path_stem PathDecModel.zix_path_extension PathDecModel.zix_queries
-  PathDecModel.view_text PathDecModel.slen.
+  PathDecModel.view_text PathDecModel.slen
+  PathWinSpec.win_root_name PathWinSpec.win_has_root_directory PathWinSpec.win_relative_path
+  PathWinSpec.win_parent_path PathWinSpec.win_filename PathWinSpec.win_stem PathWinSpec.win_extension
+  PathWinSpec.win_queries.
